@@ -52,6 +52,9 @@ ParseModule(f) ==
 DomEdit   == Rec([op |-> "domedit"]) /\ UNCHANGED <<mode, amode, parser, pref>>
 MQEdit    == Rec([op |-> "mqedit"]) /\ UNCHANGED <<mode, amode, parser, pref>>
 Serialize == Rec([op |-> "serialize"]) /\ UNCHANGED <<mode, amode, parser, pref>>
+\* a rejected edit of a value object; a profile with its own token macros registered and removed again: both leave nothing behind
+ValueEdit == Rec([op |-> "valueedit"]) /\ UNCHANGED <<mode, amode, parser, pref>>
+ProfileRoundTrip == Rec([op |-> "profileaddremove"]) /\ UNCHANGED <<mode, amode, parser, pref>>
 \* csscombine works with a private serializer: whatever its arguments, the user's serializer and preferences stay as they are
 Combine(f, m, rv) == Rec([op |-> "combine", fault |-> f, minify |-> m, resolve |-> rv]) /\ UNCHANGED <<mode, amode, parser, pref>>
 \* a tokenizer built with its own macros (a compiled-production cache sits behind it): later tokenizers must not see it
@@ -65,7 +68,7 @@ Next == \/ \E p \in Parsers, r \in BOOLEAN : NewParser(p, r)
         \/ \E b \in BOOLEAN : SetMode(b)
         \/ \E p \in Parsers, e \in Entries \ {"module"}, f \in Faults : Parse(p, e, f)
         \/ \E f \in Faults : ParseModule(f)
-        \/ DomEdit \/ MQEdit \/ Serialize \/ Probe
+        \/ DomEdit \/ MQEdit \/ Serialize \/ Probe \/ ValueEdit \/ ProfileRoundTrip
         \/ \E f \in {"none", "missingfile"}, m \in BOOLEAN, rv \in BOOLEAN : Combine(f, m, rv)
         \/ \E v \in {"A", "B"} : CustomTokenizer(v)
         \/ \E v \in {"default", "minified", "nocomments"} : SetPref(v)
